@@ -504,6 +504,12 @@ class Interp(ExprMixin, StmtMixin):
                 out = Outcome("raise", exc=e)
             except _PathEnd as e:
                 out = Outcome("end", value=e.why)
+            except Unsupported as e:
+                # tool limit on this path: the caller turns every clause of the path into an
+                # undischarged obligation carrying this reason (never silently dropped)
+                out = Outcome("unsupported", value=f"engine: Unsupported {e} (near line {self.cur_line})")
+            except RecursionError:
+                out = Outcome("unsupported", value="engine: unbounded recursion while interpreting")
             return out, list(self.obligations), list(self.frame_writes), (made[2] if len(made) > 2 else None)
 
         for p, res in explore(one, axioms=axioms, max_paths=max_paths, timeout_ms=timeout_ms):
